@@ -57,6 +57,16 @@ pub struct ItemReq {
     /// R-const: name of a module-level constant -> function returning its (extracted) value
     #[serde(default)]
     pub const_map: BTreeMap<String, String>,
+    /// statement slice: keep only the top-level statements from the first one matching `slice_from` up to and including the
+    /// first one at or after it matching `slice_to` (regexes over the normalised statement text); everything else in the
+    /// function body is dropped and reported in `dropped`
+    #[serde(default)]
+    pub slice_from: Option<String>,
+    #[serde(default)]
+    pub slice_to: Option<String>,
+    /// the variable the slice computes: appended as the tail expression after every anchor
+    #[serde(default)]
+    pub slice_result: Option<String>,
 }
 
 #[derive(Deserialize, Default, Clone)]
@@ -560,6 +570,30 @@ fn extract_fn(file: &File, req: &ItemReq, resp: &mut ItemResp) -> std::result::R
     resp.src_hash = fnv(&format!("{} {}", resp.orig_sig, norm_tokens(found.block.to_token_stream())));
     let mut block = found.block;
 
+    // 0a. statement slice (a contract on a contiguous run of top-level statements of a function that is otherwise out of reach)
+    let mut slice_note: Option<String> = None;
+    if let (Some(from), Some(to)) = (&req.slice_from, &req.slice_to) {
+        let rf = Regex::new(from).map_err(|e| format!("slice_from: bad regex: {}", e))?;
+        let rt = Regex::new(to).map_err(|e| format!("slice_to: bad regex: {}", e))?;
+        let n_from = block.stmts.iter().filter(|s| rf.is_match(&stmt_text(s))).count();
+        if n_from != 1 {
+            return Err(format!("lost anchor: slice_from /{}/ matches {} top-level statements", from, n_from));
+        }
+        let i0 = block.stmts.iter().position(|s| rf.is_match(&stmt_text(s))).unwrap();
+        let i1 = match block.stmts.iter().enumerate().skip(i0).find(|(_, s)| rt.is_match(&stmt_text(s))) {
+            Some((i, _)) => i,
+            None => return Err(format!("lost anchor: slice_to /{}/ matches no top-level statement at or after slice_from", to)),
+        };
+        let total = block.stmts.len();
+        let kept: Vec<Stmt> = block.stmts.drain(..).enumerate().filter(|(i, _)| *i >= i0 && *i <= i1).map(|(_, s)| s).collect();
+        block.stmts = kept;
+        // the last kept statement must not be read as the block's value
+        if let Some(Stmt::Expr(e, semi @ None)) = block.stmts.last_mut() {
+            if !is_block_like(e) { *semi = Some(Default::default()); }
+        }
+        slice_note = Some(format!("statement slice: top-level statements {}..={} of {} kept; the {} before and the {} after them are not part of this item", i0 + 1, i1 + 1, total, i0, total - 1 - i1));
+    }
+
     // 0. R-mutself: `fn f(mut self, ..)` is `fn f(self, ..) { let mut __vx_self = self; .. }` with every
     //    use of `self` in the body renamed (Verus has no `mut self` parameters)
     let mut pre_log: Vec<RewriteLog> = vec![];
@@ -606,6 +640,7 @@ fn extract_fn(file: &File, req: &ItemReq, resp: &mut ItemResp) -> std::result::R
     resp.rewrites = pre_log;
     resp.rewrites.extend(std::mem::take(&mut rw.log));
     resp.dropped = std::mem::take(&mut rw.dropped);
+    if let Some(n) = slice_note { resp.dropped.push(n); }
     if !rw.errors.is_empty() {
         return Err(rw.errors.join("; "));
     }
@@ -641,7 +676,8 @@ fn extract_fn(file: &File, req: &ItemReq, resp: &mut ItemResp) -> std::result::R
         lap.visit_block_mut(&mut block);
     }
     // a function returning `()` may have statements after its last (block-like) expression
-    let unit_ret = matches!(found.sig.output, ReturnType::Default);
+    // (a statement slice has no tail expression of its own either: end-anchors go after its last statement)
+    let unit_ret = matches!(found.sig.output, ReturnType::Default) || req.slice_from.is_some();
     place_anchors_in_block(&mut block, &fn_anchors, &mut placed, &mut errors, unit_ret);
     for a in &req.anchors {
         if !placed.contains(&a.name) && errors.is_empty() {
@@ -650,6 +686,10 @@ fn extract_fn(file: &File, req: &ItemReq, resp: &mut ItemResp) -> std::result::R
     }
     if !errors.is_empty() {
         return Err(errors.join("; "));
+    }
+    if let Some(res) = &req.slice_result {
+        let e: Expr = syn::parse_str(res).map_err(|e| format!("slice_result: {}", e))?;
+        block.stmts.push(Stmt::Expr(e, None));
     }
 
     // 4. print
